@@ -2,6 +2,14 @@
    changed textual fact breaks the obligations of the properties that own it and not those of every module that imports their lemmas. -/
 import CosetProofs.Ties.EmitOrder
 import CosetProofs.Ties.HeaderFields
+import CosetProofs.Ties.Compare.Common
+import CosetProofs.Ties.Compare.Context
+import CosetProofs.Ties.Compare.Cwt
+import CosetProofs.Ties.Compare.Encrypt
+import CosetProofs.Ties.Compare.Header
+import CosetProofs.Ties.Compare.Key
+import CosetProofs.Ties.Compare.Mac
+import CosetProofs.Ties.Compare.Sign
 namespace Coset.Props.C11
 
 /-! ### ties to the source text (regenerated on every run, compared in the kernel with the transcribed tree) -/
@@ -12,5 +20,24 @@ theorem tie_header_is_empty : Coset.Gen.headerFields = Coset.Pinned.headerFields
 
 #print axioms tie_emit_order
 #print axioms tie_header_is_empty
+
+/-! comparisons and integer literals of the modules this property is anchored in (properties.jsonl): none beyond the transcribed tree's -/
+theorem tie_compare_common : Coset.Ties.compareCovered "common" Coset.Gen.decisionBudget Coset.Pinned.decisionBudget = true := Coset.Ties.compare_common
+theorem tie_compare_context : Coset.Ties.compareCovered "context" Coset.Gen.decisionBudget Coset.Pinned.decisionBudget = true := Coset.Ties.compare_context
+theorem tie_compare_cwt : Coset.Ties.compareCovered "cwt" Coset.Gen.decisionBudget Coset.Pinned.decisionBudget = true := Coset.Ties.compare_cwt
+theorem tie_compare_encrypt : Coset.Ties.compareCovered "encrypt" Coset.Gen.decisionBudget Coset.Pinned.decisionBudget = true := Coset.Ties.compare_encrypt
+theorem tie_compare_header : Coset.Ties.compareCovered "header" Coset.Gen.decisionBudget Coset.Pinned.decisionBudget = true := Coset.Ties.compare_header
+theorem tie_compare_key : Coset.Ties.compareCovered "key" Coset.Gen.decisionBudget Coset.Pinned.decisionBudget = true := Coset.Ties.compare_key
+theorem tie_compare_mac : Coset.Ties.compareCovered "mac" Coset.Gen.decisionBudget Coset.Pinned.decisionBudget = true := Coset.Ties.compare_mac
+theorem tie_compare_sign : Coset.Ties.compareCovered "sign" Coset.Gen.decisionBudget Coset.Pinned.decisionBudget = true := Coset.Ties.compare_sign
+
+#print axioms tie_compare_common
+#print axioms tie_compare_context
+#print axioms tie_compare_cwt
+#print axioms tie_compare_encrypt
+#print axioms tie_compare_header
+#print axioms tie_compare_key
+#print axioms tie_compare_mac
+#print axioms tie_compare_sign
 
 end Coset.Props.C11
